@@ -203,7 +203,20 @@ func checkC19(p *Prog, r *Report) {
 								// RunMigrations type-asserts the SDK's own (unexported) configurator type: a wrapper around it makes every
 								// upgrade handler fail ("expected configurator") and the chain halts at the upgrade height
 								t := no.Of(st.Val)
-								r.Check(t.IsCall("sdk/types/module.NewConfigurator"), kp("WIRE", "app.New#configurator=module.NewConfigurator(…)"), "the configurator kept by the app (and captured by the upgrade handlers) is the value module.NewConfigurator returns, not a wrapper around it", p.Pos(st.Pos()),
+								okCfg := t.IsCall("sdk/types/module.NewConfigurator")
+								if !okCfg {
+									// built by a helper of the app that returns module.NewConfigurator(…) itself on every path
+									if g := staticCalleeOfTerm(p, t); g != nil && InModule(g) && g.Blocks != nil {
+										okCfg = true
+										for _, ret := range returnsOf(g) {
+											c, isCall := ret.Results[0].(*ssa.Call)
+											if len(ret.Results) != 1 || !isCall || !strings.HasSuffix(calleeName(&c.Call), "types/module.NewConfigurator") {
+												okCfg = false
+											}
+										}
+									}
+								}
+								r.Check(okCfg, kp("WIRE", "app.New#configurator=module.NewConfigurator(…)"), "the configurator kept by the app (and captured by the upgrade handlers) is the value module.NewConfigurator returns, not a wrapper around it", p.Pos(st.Pos()),
 									"app.configurator = module.NewConfigurator(…)", "app.configurator is assigned "+clip(t.String(), 160)+": module.Manager.RunMigrations accepts only the SDK's own configurator type, so every upgrade handler returns an error and the node halts in the upgrade block")
 							}
 						}
